@@ -277,6 +277,12 @@ def handle (op : String) (args : List String) : String :=
       | .ok (l, t, st) => "ok\t" ++ (SExpr.list [l.toSExpr, renderTy t, .list (PyVal.toSExprL st.md), strsToSExpr st.log]).render
       | .error err => "err\t" ++ err.render)
     | _, _, _ => bad
+  | "untypedHyp", [m, ty, lam] =>
+    -- hypotheses of streamOp_untyped_identity: untyped item type, no call of a registered function by name
+    match parseModel m, (SExpr.parse ty).bind parseTy, parseExpr lam with
+    | some m, some ty, some (.lam [_] body) => "ok\t" ++ (if ty.untyped && noFuncCall m body then "true" else "false")
+    | some _, some _, some _ => "ok\tfalse"
+    | _, _, _ => bad
   | "simp", [c, e] => match c.toNat?, parseExpr e with
     | some c, some e => (match simplify (400 * e.size + 400) c e with
       | .ok (e', _) => okE e'
